@@ -7,7 +7,7 @@ durable micro-steps) to /repo's current code:
          verif_trace.go: sqlite3_auto_extension + sqlite3_trace_v2, injected by
          the overlay into internal/db).  Seeded workloads (first contact of new
          users, LMTP deliveries to several recipients, APPEND of multipart mail
-         with out-of-line parts, UID COPY, UID STORE incl. Junk, EXPUNGE, CLOSE,
+         with out-of-line parts, UID COPY, COPY, UID STORE incl. Junk, EXPUNGE, CLOSE,
          CREATE/RENAME/DELETE incl. hierarchies and RENAME INBOX, SUBSCRIBE) run
          over real IMAP/LMTP sessions; per operation the observed sequence of
          write statements (kind + table, BEGIN/COMMIT/ROLLBACK; SELECT/PRAGMA
@@ -38,7 +38,7 @@ import common as C
 
 PID = "C07"
 DOM = "example.com"
-CLASS_BY_CODE = {1: "store_creation_torn_schema", 2: "store_creation_no_inbox"}
+CLASS_BY_CODE = {}      # no listed finding class left (F19 repaired by fixes/store-init-idempotent.patch)
 WRITE_KINDS = {"INSERT": "I", "UPDATE": "U", "DELETE": "D"}
 
 
@@ -150,6 +150,7 @@ class Plan:
                 else:
                     line = {"select": lambda: "SELECT %s" % st["name"],
                             "uidcopy": lambda: "UID COPY %s %s" % (set_text(st["set"]), st["dest"]),
+                            "copy": lambda: "COPY %s %s" % (set_text(st["set"]), st["dest"]),
                             "uidstore": lambda: "UID STORE %s %s (%s)" % (set_text(st["set"]), {"+": "+FLAGS", "-": "-FLAGS", "=": "FLAGS"}[st["mode"]], " ".join(st["flags"])),
                             "expunge": lambda: "EXPUNGE", "close": lambda: "CLOSE",
                             "create": lambda: "CREATE %s" % st["name"], "delete": lambda: "DELETE %s" % st["name"],
@@ -227,6 +228,7 @@ class ModelSide:
         self.script = script
         self.msgs = msgs
         self.sel = {}
+        self.opened = set()     # users whose store was opened (GetUserDB ran) in this process
 
     def cops(self, i, dump_before):
         """[(user, coq-op-text)] for step i; dump_before: {user: store-dump}"""
@@ -234,11 +236,20 @@ class ModelSide:
         k = st["k"]
         T = "0 0 0 0 0"
         if k == "login":
+            if st["u"] in self.opened:
+                return []            # cached connection: GetUserDB issues nothing
+            self.opened.add(st["u"])
             return [(st["u"], "(COpen %s)" % T)]
         if k == "deliver":
             sh = self.msgs[i][0]
             folder = "D" if st.get("folder") == "D" else "INBOX"
-            return [(r, "(CDeliver %s 0 %s %s)" % (C.coq_str(folder), coq_shape(sh), T)) for r in st["rcpts"]]
+            out = []
+            for r in st["rcpts"]:
+                if r not in self.opened:
+                    self.opened.add(r)
+                    out.append((r, "(COpen %s)" % T))      # GetUserDB at the head of the first delivery
+                out.append((r, "(CDeliver %s 0 %s)" % (C.coq_str(folder), coq_shape(sh))))
+            return out
         u = st["u"]
         if k == "append":
             return [(u, "(CAppend %s %s %s)" % (C.coq_str(st["folder"]), coq_flags(st["flags"]), coq_shape(self.msgs[i][0])))]
@@ -247,6 +258,8 @@ class ModelSide:
             return []
         if k == "uidcopy":
             o = "OUidCopy %d %s %s" % (sel, coq_set(st["set"]), C.coq_str(st["dest"]))
+        elif k == "copy":
+            o = "OCopy %d %s %s" % (sel, coq_set(st["set"]), C.coq_str(st["dest"]))
         elif k == "uidstore":
             o = "OUidStore %d %s %s %s" % (sel, coq_set(st["set"]), {"+": "SAdd", "-": "SDel", "=": "SSet"}[st["mode"]], coq_flags(st["flags"]))
         elif k == "expunge":
@@ -297,7 +310,7 @@ def uid_of_store(d7):
     return {"user_db_%d" % row[0]: row[1] for row in (d7.get("users") or [])}
 
 
-NEEDS_SEL = ("uidcopy", "uidstore", "expunge", "close")
+NEEDS_SEL = ("uidcopy", "copy", "uidstore", "expunge", "close")
 
 
 def digest_trace(script, plan, res):
@@ -343,10 +356,25 @@ def digest_trace(script, plan, res):
         if st["k"] in NEEDS_SEL and ms.sel.get(st["u"], 0) == 0:
             cops = []            # "No mailbox selected": not an operation of the model
         seen = set()
+        nth_of_user = {}
         for j, (u, optxt) in enumerate(cops):
-            code = codes[j] if j < len(codes) else -1
+            ulabs = labs.get(u, [])
+            if st["k"] == "deliver":
+                # reply = position of the recipient; labels: the COpen part ends where the message rows start
+                code = codes[st["rcpts"].index(u)] if st["rcpts"].index(u) < len(codes) else -1
+                cut = ulabs.index("I messages") if "I messages" in ulabs else len(ulabs)
+                if "COMMIT" in ulabs[:cut]:
+                    cut = ulabs.index("COMMIT") + 1       # end of the default-mailbox transaction of GetUserDB
+                has_open = any(uu == u and "COpen" in t for (uu, t) in cops)
+                if "COpen" in optxt:
+                    mylabs, code, view = ulabs[:cut], -1, "(mkOV (-3) [] [] [] [])"
+                else:
+                    mylabs, view = (ulabs[cut:] if has_open else ulabs), coq_oview(after.get(u))
+            else:
+                code = codes[j] if j < len(codes) else -1
+                mylabs, view = ulabs, coq_oview(after.get(u))
             per_user.setdefault(u, []).append("(%s, %s, %s, %s)" % (
-                optxt, C.coq_list([C.coq_str(x) for x in labs.get(u, [])]), C.coq_z(code), coq_oview(after.get(u))))
+                optxt, C.coq_list([C.coq_str(x) for x in mylabs]), C.coq_z(code), view))
             step_index.setdefault(u, []).append(i)
             seen.add(u)
         for u in labs:
@@ -408,7 +436,7 @@ def gen_script(rng, n, users=("u", "v"), crashy=False):
                 sc.append({"k": "select", "u": u, "name": "INBOX"})
                 seld[u] = "INBOX"
             a = rng.randint(1, 3)
-            sc.append({"k": "uidcopy", "u": u, "set": [("range", a, a + rng.randint(0, 2))], "dest": rng.choice(sorted(names[u]) + ["Nope"])})
+            sc.append({"k": rng.choice(["uidcopy", "uidcopy", "copy"]), "u": u, "set": [("range", a, a + rng.randint(0, 2))], "dest": rng.choice(sorted(names[u]) + ["Nope"])})
         elif r < 0.66:
             if u not in seld:
                 sc.append({"k": "select", "u": u, "name": "INBOX"})
@@ -552,7 +580,7 @@ def trace_suite(chk, scripts, label="trace", base=None):
 def search_crash_in_step(chk, script, step, base):
     """Replay every crash point inside operation `step` of `script` (all I/O
     calls between the acknowledgement before it and its own); observation-only
-    audit.  Returns (K, text, user) of the first failure outside store creation."""
+    audit.  Returns (K, text, user) of the first failure."""
     from concurrent.futures import ThreadPoolExecutor
     sub = script[:step + 1]
     n, acks = count_io(sub, base)
@@ -572,10 +600,6 @@ def search_crash_in_step(chk, script, step, base):
         chk.cov["crash_points"] = chk.cov.get("crash_points", 0) + 1
         by_user = stores_by_user(rec["d7"]) if "d7" in rec else {}
         for kind, u, text in judge_crash(chk, sub, rec, None):
-            stu = by_user.get(u)
-            if kind in ("login", "inbox", "deliver") and (stu is None or (stu.get("schema") or 0) < 26
-                                                           or not any(m[2] == "INBOX" for m in (stu.get("mailboxes") or []))):
-                continue          # store creation: the listed finding classes
             return rec["K"], text, u
     return None
 
@@ -876,18 +900,9 @@ def crash_suite(chk, script, Ks, base, label):
             for (k, c) in ks:
                 if c:
                     cls_seen.add((u, c))
-        # classify what the audit saw
+        # no listed finding class: whatever the audit saw is a violation
         for kind, u, text in bad:
-            if kind in ("login", "inbox", "deliver"):
-                codes = {c for (uu, c) in cls_seen if uu == u}
-                cls = None
-                if kind in ("deliver",) and 1 in codes:
-                    cls = CLASS_BY_CODE[1]
-                elif kind == "inbox" and codes:
-                    cls = CLASS_BY_CODE[2] if 2 in codes else CLASS_BY_CODE[1]
-                chk.violation("after a kill before storage I/O call %d of the workload: %s" % (rec["K"], text), dict(payload, user=u, kind=kind), cls=cls)
-            else:
-                chk.violation("after a kill before storage I/O call %d of the workload: %s" % (rec["K"], text), dict(payload, user=u, kind=kind))
+            chk.violation("after a kill before storage I/O call %d of the workload: %s" % (rec["K"], text), dict(payload, user=u, kind=kind))
         chk.cov["traces_validated_against_impl"] += 1
     return recs
 
